@@ -27,15 +27,15 @@ def shift : SysEv → Nat → Nat
   | _, i => i
 
 /-- an event of a loss-free suffix: a delivery, a duplication, or a clock advance that is monotone, within the horizon
-`H`, and does not jump over the next tick of the controlling agent `c` (its timer fires exactly when it is due; the
-controlled agent may run any number of due ticks).  No drop, no API call (Restart, Close, signalling). -/
-def sufOK (c : Bool) (H : Nat) (s : Sys) : SysEv → Prop
+`H`, and goes at most `J` beyond the next tick of the controlling agent `c` (`J = 0`: its timer fires exactly when it is
+due; `J > 0`: an advance may run several of its ticks; the controlled agent may always run any number of due ticks).  No drop, no API call (Restart, Close, signalling). -/
+def sufOK (c : Bool) (H J : Nat) (s : Sys) : SysEv → Prop
   | .deliver _ => True
   | .dup _ => True
-  | .advance T => s.now ≤ T ∧ T ≤ H ∧ ∃ t, (s.agent c).nextTick = some t ∧ T ≤ t
+  | .advance T => s.now ≤ T ∧ T ≤ H ∧ ∃ t, (s.agent c).nextTick = some t ∧ T ≤ t + J
   | _ => False
 
-instance (c : Bool) (H : Nat) (s : Sys) (e : SysEv) : Decidable (sufOK c H s e) := by
+instance (c : Bool) (H J : Nat) (s : Sys) (e : SysEv) : Decidable (sufOK c H J s e) := by
   cases e <;> unfold sufOK
   · exact isFalse (fun h => h)
   · exact isTrue trivial
@@ -45,18 +45,18 @@ instance (c : Bool) (H : Nat) (s : Sys) (e : SysEv) : Decidable (sufOK c H s e) 
     cases ht : (s.agent c).nextTick with
     | none => exact isFalse (fun ⟨_, _, t, h, _⟩ => by cases h)
     | some t =>
-      exact decidable_of_iff (s.now ≤ T ∧ T ≤ H ∧ T ≤ t)
+      exact decidable_of_iff (s.now ≤ T ∧ T ≤ H ∧ T ≤ t + J)
         ⟨fun ⟨a, b, c'⟩ => ⟨a, b, t, rfl, c'⟩, fun ⟨a, b, t', h, c'⟩ => by cases h; exact ⟨a, b, c'⟩⟩
 
-def SufOK (c : Bool) (H : Nat) : Sys → List SysEv → Prop
+def SufOK (c : Bool) (H J : Nat) : Sys → List SysEv → Prop
   | _, [] => True
-  | s, e :: es => sufOK c H s e ∧ SufOK c H (Sys.run s e) es
+  | s, e :: es => sufOK c H J s e ∧ SufOK c H J (Sys.run s e) es
 
-def SufOK.dec (c : Bool) (H : Nat) : (s : Sys) → (es : List SysEv) → Decidable (SufOK c H s es)
+def SufOK.dec (c : Bool) (H J : Nat) : (s : Sys) → (es : List SysEv) → Decidable (SufOK c H J s es)
   | _, [] => isTrue trivial
-  | s, e :: es => @instDecidableAnd _ _ _ (SufOK.dec c H (Sys.run s e) es)
+  | s, e :: es => @instDecidableAnd _ _ _ (SufOK.dec c H J (Sys.run s e) es)
 
-instance (c : Bool) (H : Nat) (s : Sys) (es : List SysEv) : Decidable (SufOK c H s es) := SufOK.dec c H s es
+instance (c : Bool) (H J : Nat) (s : Sys) (es : List SysEv) : Decidable (SufOK c H J s es) := SufOK.dec c H J s es
 
 /-- the datagram at position `i` of `s` is delivered by the schedule, and the clock does not pass `dl` before -/
 def DeliveredBy (dl : Nat) : Sys → List SysEv → Nat → Prop
@@ -100,19 +100,19 @@ theorem FairL.tail {L : Nat} {s : Sys} {e1 e2 : List SysEv} (h : FairL L s (e1 +
   rw [Sys.runs_append] at this
   exact this
 
-theorem SufOK.tail {c : Bool} {H : Nat} {s : Sys} {e1 e2 : List SysEv} (h : SufOK c H s (e1 ++ e2)) :
-    SufOK c H (Sys.runs s e1) e2 := by
+theorem SufOK.tail {c : Bool} {H J : Nat} {s : Sys} {e1 e2 : List SysEv} (h : SufOK c H J s (e1 ++ e2)) :
+    SufOK c H J (Sys.runs s e1) e2 := by
   induction e1 generalizing s with
   | nil => exact h
   | cons e es ih => exact ih h.2
 
-theorem SufOK.head {c : Bool} {H : Nat} {s : Sys} {e1 e2 : List SysEv} (h : SufOK c H s (e1 ++ e2)) : SufOK c H s e1 := by
+theorem SufOK.head {c : Bool} {H J : Nat} {s : Sys} {e1 e2 : List SysEv} (h : SufOK c H J s (e1 ++ e2)) : SufOK c H J s e1 := by
   induction e1 generalizing s with
   | nil => trivial
   | cons e es ih => exact ⟨h.1, ih h.2⟩
 
 /-- a loss-free suffix contains no API call -/
-theorem SufOK.not_api {c : Bool} {H : Nat} {s : Sys} {es : List SysEv} (h : SufOK c H s es) {e : SysEv} (he : e ∈ es) :
+theorem SufOK.not_api {c : Bool} {H J : Nat} {s : Sys} {es : List SysEv} (h : SufOK c H J s es) {e : SysEv} (he : e ∈ es) :
     ∀ b ev, e ≠ SysEv.api b ev := by
   induction es generalizing s with
   | nil => cases he
